@@ -25,3 +25,12 @@ Proof. destruct ot; reflexivity. Qed.
 (* and nothing else of the configuration is touched by once_cfg: a one-shot never has a stop or skip_missing *)
 Lemma tie_once_rest ot c : c_stop (once_cfg ot c) = None /\ c_skip (once_cfg ot c) = false /\ c_max_attempts (once_cfg ot c) = 1.
 Proof. destruct ot; repeat split; reflexivity. Qed.
+
+(* cyclic / minutely / hourly / daily / weekly hand their own job type (and the caller's timing, handle and keyword
+   arguments, unchanged) to __schedule *)
+Definition method_of (ty : jobtype) : pymethod :=
+  match ty with CYCLIC => M_cyclic | MINUTELY => M_minutely | HOURLY => M_hourly | DAILY => M_daily | WEEKLY => M_weekly end.
+Theorem tie_thr_schedule_type ty : GenOnce.thr_schedule_type (method_of ty) = py_type ty.
+Proof. destruct ty; reflexivity. Qed.
+Theorem tie_aio_schedule_type ty : GenOnce.aio_schedule_type (method_of ty) = py_type ty.
+Proof. destruct ty; reflexivity. Qed.
